@@ -66,6 +66,9 @@ pub enum Action {
     /// close the handle and open the file again asking for another initial page count (which only
     /// matters when a file is created): the state must be unchanged; the new handle is kept
     ReopenNumPages(usize),
+    /// close the handle and open the file again with strict mode / map-populate toggled relative to
+    /// the configuration (bit 0: strict, bit 1: populate); the state must be unchanged
+    ReopenFlags(u8),
     /// close the handle, try to open the file with another page size (must be refused, by an error or
     /// the documented panic, without touching the file), open it again with its own page size
     OpenWrongPagesize(u64),
@@ -100,6 +103,7 @@ impl Action {
             Action::LeakFreePage => json!("drop-last-id-from-free-list"),
             Action::OpenWrongPagesize(ps) => json!({"open-with-pagesize": ps}),
             Action::ReopenNumPages(np) => json!({"reopen-with-num-pages": np}),
+            Action::ReopenFlags(f) => json!({"reopen-toggling": {"strict": f & 1 != 0, "populate": f & 2 != 0}}),
             Action::OpenReader => json!("open-reader"),
             Action::CloseReader(i) => json!({"close-reader": i}),
         }
@@ -127,6 +131,9 @@ impl Action {
         }
         if let Some(ops) = v.get("rotx") {
             return Action::RoTx { ops: ops.as_array().unwrap().iter().map(OpSpec::from_json).collect() };
+        }
+        if let Some(t) = v.get("reopen-toggling") {
+            return Action::ReopenFlags((t["strict"].as_bool().unwrap_or(false) as u8) | ((t["populate"].as_bool().unwrap_or(false) as u8) << 1));
         }
         if let Some(np) = v.get("reopen-with-num-pages") {
             return Action::ReopenNumPages(np.as_u64().unwrap() as usize);
@@ -889,6 +896,23 @@ impl Runner {
                     let writes = events.iter().filter(|e| matches!(e, crate::iosim::IoEvent::Write { .. } | crate::iosim::IoEvent::Fallocate { .. } | crate::iosim::IoEvent::Ftruncate { .. })).count();
                     if writes > 0 {
                         out.push(Violation::new("open_wrote", format!("{} write/extend calls while opening an existing database", writes)));
+                    }
+                }
+                self.check_committed_state(or, &what, &mut out);
+            }
+            Action::ReopenFlags(f) => {
+                if !self.readers.is_empty() {
+                    return out;
+                }
+                self.db = None;
+                let cfg = Cfg { strict: self.cfg.strict ^ (f & 1 != 0), populate: self.cfg.populate ^ (f & 2 != 0), ..self.cfg.clone() };
+                let path = self.path.clone();
+                match guarded(|| cfg.open(&path)) {
+                    Ok(Ok(db)) => self.db = Some(Box::new(db)),
+                    other => {
+                        out.push(Violation::new("reopen_error", format!("open with other flags: {:?}", other.map(|x| x.map(|_| ())))));
+                        self.poisoned = true;
+                        return out;
                     }
                 }
                 self.check_committed_state(or, &what, &mut out);
